@@ -244,6 +244,10 @@ main(void)
     CAM[0].fail_frame_at = ND(uint8_t);
     VASSUME(CAM[0].fail_frame_at < (int)N);
 #endif
+    /* one get_frame call of the run may come back without a frame (*nbytes == 0, a time-out): it must
+     * neither count as a frame nor consume a frame id */
+    CAM[0].empty_at = ND(int8_t);
+    VASSUME(CAM[0].empty_at >= -1 && CAM[0].empty_at <= NMAX);
     /* readers join before the source starts (sink, and optionally a monitor) */
     chk.id = ++ring.holds.n; ring.holds.pos[chk.id - 1] = 0;
     lazy_on = ND(bool_t);
@@ -264,6 +268,7 @@ main(void)
 #if SCN == 0
     VASSERT(delivered == (int)N && chk_frames == (int)N, "C04: finite acquisition did not commit exactly N frames");
     VASSERT(ecode == 0, "source thread reported an error without a fault");
+    COVER(CAM[0].empties == 1 && N >= 2);
 #endif
 #if SCN == 2
     VASSERT(delivered == CAM[0].fail_frame_at, "C09: frames acquired after the failing camera call");
